@@ -47,6 +47,17 @@ func genHistory(t *rapid.T, k HistKnobs) *Script {
 		g.logged, g.sent = true, 1
 	}
 	for i := 0; i < n; i++ {
+		if g.logged && !k.LongAdvance && rapid.IntRange(0, 29).Draw(t, "probeThenLogon") == 0 {
+			// silent until the session has probed the peer, whose next message is a further Logon
+			hb := g.hb
+			if cfg.Role == "initiator" {
+				hb = cfg.HBInt
+			}
+			T := int64(tolT(hb))
+			add(rig.Step{Op: "advance", Dt: T + T/10 + 1e6 - sinceIn})
+			add(rig.Step{Op: "in", In: g.goodLogon(hb), Kind: "after-probe"})
+			continue
+		}
 		switch kind := rapid.IntRange(0, 99).Draw(t, "stepKind"); {
 		case kind < 30: // a Logon of some sort
 			spec := LogonSpec{
@@ -365,7 +376,9 @@ func checkC06(sc *Script, rec *evid.Rec) (vs []pbt.Violation) {
 			}
 		}
 		// safety: logged on only through an acceptable Logon
-		if res.Logged && state != "logged" {
+		// (while a locally requested logout is still unanswered the Logon exchange is
+		// still the one in force: the property does not require IsLogged to be false then)
+		if res.Logged && state != "logged" && state != "loggingout" {
 			vs = append(vs, pbt.V("logged-without-logon", "step %d (%s): IsLogged is true although no acceptable Logon is in force (model state %s)", i, showStep(st), state))
 		}
 		if len(vs) > 0 {
